@@ -25,6 +25,12 @@ def gen(rng, tier):
     names = sorted(G.OPS)
     ctx.enabled = G.swarm_subset(rng, names, 0.75, always=("from_array", "binary", "rechunk", "reduction"))
     ctx.weights = {"random": 0.6, "map_blocks": 1.2, "diag_ops": 2.0}
+    if rng.random() < 0.3:
+        # creation ops with ragged explicit chunks fused with elementwise consumers (the fused records path
+        # derives block shapes by probing positions of each axis)
+        ctx.weights.update({"creation": 4.0, "unary": 5.0, "binary": 4.0})
+        ctx.p_ragged_creation = 0.7
+        ctx.enabled |= {"creation", "unary"}
     ctx.enabled.add("diag_ops")
     ctx.p_masked = rng.choice([0.0, 0.05, 0.2])
     ctx.p_simsource = rng.choice([0.0, 0.3])
